@@ -44,6 +44,8 @@ def main():
         res['checks'] = {}
         env = dict(os.environ)
         env['VERIF_REPO'] = wt
+        env.setdefault('VERIF_MAX_REPORT', '1')      # evaluation only needs to know whether the check alarms
+        env.setdefault('VERIF_SHRINK_WALL', '8')
         for pid in ids:
             rc, out = sh('/venv/bin/python run.py check %s --tier quick' % pid, cwd=VERIF, env=env)
             lines = [l for l in out.splitlines() if l.startswith('VIOLATION') or l.startswith('HARNESS')]
